@@ -8,7 +8,7 @@
    number of clients each with or without L1) by ANY finite sequence of store / fetch / rise / clear /
    evict / stats / clock tick / raw foreign frame operations by any clients in any order.
    `quiet o` = o is a fetch, an L1 eviction or a stats call (operations that only read the servers). *)
-From CppcmsV Require Import Base.Tac Base.CSem C10.Defs C10.Proofs C10.Coherence C10.Codec C10.Effects C10.Refine C10.Placement C10.Triggers C10.Link
+From CppcmsV Require Import Base.Tac Base.CSem C10.Defs C10.Proofs C10.Coherence C10.Codec C10.Effects C10.Refine C10.Placement C10.Triggers C10.L1Triggers C10.Link
   gen.Gen_tcphash gen.Gen_tcpproto.
 Local Open Scope N_scope.
 
@@ -212,6 +212,23 @@ Theorem fetch_returns_trigger_set_unchanged : forall w c k r w1 s e,
   step w (OFetch c k true) = (ObsFetch r, w1) -> r = Some (e_val e, e_trg e, e_dl e).
 Proof. exact fetch_triggers_no_l1. Qed.
 Print Assumptions fetch_returns_trigger_set_unchanged.
+(* for ANY node, with or without L1, in every reachable world (also after foreign raw frames): the trigger set returned by a
+   fetch-with-triggers contains every name of the responsible server's record (NUL-free names).  Invariant behind it: an L1
+   record whose generation is that of the server's record contains that record's names.  (A node with an L1 may return more
+   names - those of older copies it held: cache_over_ip::fetch merges; see docs.) *)
+Theorem fetch_returns_at_least_the_trigger_set : forall w c k v tt dl w1 s e,
+  reachable w -> step w (OFetch c k true) = (ObsFetch (Some (v, tt, dl)), w1) ->
+  nth_error (w_srv w) (server_of (nsrv w) k) = Some s -> c_fetch (w_now w) k s = Some e ->
+  Forall nul_free (e_trg e) -> incl (e_trg e) tt.
+Proof. exact fetch_triggers_superset. Qed.
+Print Assumptions fetch_returns_at_least_the_trigger_set.
+(* the superset can be strict: node 0 keeps the name t of the copy it held before node 1 replaced the record *)
+Example trigger_superset_strict :
+  let h := [OStore 1 [107] [49] [[116]] 2000; OFetch 0 [107] true; OStore 1 [107] [50] [[117]] 2000] in
+  let w := snd (run (init_world 1 [true; false]) h) in
+  fst (step w (OFetch 0 [107] true)) = ObsFetch (Some ([50], [[107]; [116]; [117]], 2000%Z)) /\
+  fst (step w (OFetch 1 [107] true)) = ObsFetch (Some ([50], [[107]; [117]], 2000%Z)).
+Proof. vm_compute. split; reflexivity. Qed.
 Example fetch_triggers_nonvacuous :
   let w := snd (run (init_world 2 [true; false]) [OStore 0 [107] [0; 49] [[117]; [116]; [116]] 2000]) in
   nth_error (w_cli w) 1 = Some None /\
